@@ -33,8 +33,10 @@ def design_checks(prop, tier):
     r = run_tlc("MCSession", cfg(constants=mc_consts(Grain='"micro"', Modes=tla_set(["free"]), MaxPush=3),
                                  invariants=inv, properties=["AllDone"]), f"{prop}-micro-live", workers=8)
     runs.append(r)
-    r = run_tlc("MCSession", cfg(constants=mc_consts(Grain='"micro"', MaxPush=3), invariants=inv),
-                f"{prop}-micro", workers=8)
+    # 4 requests (0.6 M states), thorough 5 (21 M states, about 5 minutes)
+    n = 5 if thorough else 4
+    r = run_tlc("MCSession", cfg(constants=mc_consts(Grain='"micro"', N=n, MaxPush=n), invariants=inv),
+                f"{prop}-micro", workers=12 if thorough else 8, timeout=3000)
     runs.append(r)
     if prop == "C05":
         r = run_tlc("MCSession", cfg(constants=mc_consts(Faults="TRUE", N=3 if thorough else 2,
@@ -46,8 +48,9 @@ def design_checks(prop, tier):
         r = run_tlc("MCSession", cfg(constants=mc_consts(MaxDrops=2, DropHolding="TRUE", BadRpc="FALSE"), invariants=inv),
                     f"{prop}-poll-drops", workers=8)
         runs.append(r)
-        r = run_tlc("MCSession", cfg(constants=mc_consts(Grain='"micro"', MaxDrops=2, DropHolding="TRUE", BadRpc="FALSE"),
-                                     invariants=inv), f"{prop}-micro-drops", workers=12)
+        r = run_tlc("MCSession", cfg(constants=mc_consts(Grain='"micro"', N=4, MaxPush=4, MaxDrops=3 if thorough else 2, DropHolding="TRUE",
+                                                         BadRpc="FALSE"),
+                                     invariants=inv), f"{prop}-micro-drops", workers=12, timeout=3000)
         runs.append(r)
     for r in runs:
         if r["violated"]:
